@@ -151,6 +151,71 @@ class Renotate(Stream):
             yield dict(case, score=s)
 
 
+LEVEL_METHODS = {"to_scale_note": ("to_scale_notes", "to_scale_notes", "to_scale_note"),
+                 "to_standard_note": ("to_standard_note", "to_standard_note", "to_standard_note"),
+                 "to_absolute_note": ("to_absolute_note", "to_absolute_note", "to_absolute_note"),
+                 "to_chord_note": ("to_chord_note", "to_chord_note", "to_chord_note"),
+                 "to_extension_note": ("to_extension_note", "to_extension_note", "to_extension_note")}
+
+
+class RenotateLevels(Stream):
+    """the same re-notations through their chord-, melody- and note-level entry points (Chord.to_scale_notes(), Melody.to_scale_notes(chord),
+    Note.to_scale_note(chord) ...): a chord is a one-chord score, and what it plays must not change.  Notes are non-relative (these entry
+    points take no reference pitch) and carry per-note modes and accidentals."""
+    name = "renotate_levels"
+    checker = None
+    pair = "property oracle: get_notes of the chord re-notated at chord / melody / note level vs get_notes of the chord"
+    quick, thorough = 900, 15000
+
+    def gen(self, rng, n):
+        names = sorted(LEVEL_METHODS)
+        for i in range(n):
+            c = sg.rand_rchord(rng, rng.sample(sg.NAMES, rng.randrange(1, 3)), rel=0.0, cont=0.15, systems="ssssshhccbba")
+            c["coct"] = rng.choice([0, 0, 1, -1])
+            for _, notes in c["parts"]:
+                for nt in notes:
+                    if nt["kind"] == "s" and rng.random() < 0.35:
+                        if rng.random() < 0.5: nt["mode"] = rng.choice(sg.MODES)
+                        else: nt["acc"] = rng.choice(sg.ACCS)
+            yield {"f": names[i % len(names)], "level": ["chord", "melody", "note"][(i // len(names)) % 3], "score": [c]}
+
+    def impl(self, case):
+        def f():
+            from musiclang import Melody
+            sc = sg.mk_rscore(case["score"])
+            ch = sc.chords[0]
+            cm, mm, nm_ = LEVEL_METHODS[case["f"]]
+            if case["level"] == "chord":
+                res = getattr(ch, cm)()
+            elif case["level"] == "melody":
+                res = ch(**{k: getattr(v, mm)(ch) for k, v in ch.score.items()})
+            else:
+                res = ch(**{k: Melody([getattr(x, nm_)(ch) for x in v.notes]) for k, v in ch.score.items()})
+            res = res.to_score()
+            return {"base": sounding(sc), "res": sounding(res), "dur": [F(sc.duration), F(res.duration)]}
+        return mlang.guarded(f)
+
+    def spec(self, case, r):
+        fs = f"{case['f']} at {case['level']} level"
+        if mlang.is_exc(r):
+            return {"sig": f"renotation-raises:{case['f']}:{case['level']}-level", "msg": f"{fs}: {r}"}
+        for nm, evs in r["base"].items():
+            if r["res"].get(nm, []) != evs:
+                got = r["res"].get(nm, [])
+                kind = "pitch" if [x[1:] for x in got] == [x[1:] for x in evs] else "timing"
+                return {"sig": f"renotation-changes-sound:{case['f']}:{case['level']}-level:{kind}", "msg": f"{fs}, part {nm}: {evs[:6]} became {got[:6]}"}
+        if r["dur"][0] != r["dur"][1]:
+            return {"sig": f"renotation-changes-duration:{case['f']}:{case['level']}-level", "msg": str(r["dur"])}
+        return None
+
+    def hist_keys(self, case, r):
+        return [f"f={case['f']}@{case['level']}", "exc" if mlang.is_exc(r) else "ok"]
+
+    def shrink(self, case):
+        for s in sg.shrink_score(case["score"]):
+            yield dict(case, score=s)
+
+
 class ModelStream(Stream):
     """Score.to_absolute_note / Score.correct_chord_octave against the Coq model"""
     mods = MODEL_MODS
@@ -262,4 +327,4 @@ class ToStandard(Stream):
 
 
 def streams():
-    return [Renotate(), ToAbsolute(), CorrectOctave(), ToStandard()]
+    return [Renotate(), RenotateLevels(), ToAbsolute(), CorrectOctave(), ToStandard()]
